@@ -48,6 +48,22 @@ def get_qbitstensor_op_dispatch(aten_op):
     return _QBITSTENSOR_OP_TABLE.get(aten_op, None)
 
 
+@register_qbitstensor_op([torch.ops.aten.to])
+def to(op, t, *args, **kwargs):
+    # Tensor.to is only dispatched as such in inference mode (it is decomposed otherwise), with the positional
+    # arguments of its overloads (device, dtype or another Tensor): evaluate it as a _to_copy
+    dtype, device = kwargs.pop("dtype", None), kwargs.pop("device", None)
+    for arg in args:
+        if isinstance(arg, torch.dtype):
+            dtype = arg
+        elif isinstance(arg, (str, torch.device)):
+            device = arg
+        elif isinstance(arg, torch.Tensor):
+            dtype, device = arg.dtype, arg.device
+    kwargs.pop("copy", None)
+    return get_qbitstensor_op_dispatch(torch.ops.aten._to_copy)(t, dtype=dtype, device=device, **kwargs)
+
+
 @register_qbitstensor_op([torch.ops.aten._to_copy])
 def _to_copy(op, t, dtype=None, device=None, **kwargs):
     if dtype is not None and dtype != t.dtype:
